@@ -174,6 +174,10 @@ def in_c06_domain(t: str) -> bool:
     for _, op, lit in items:
         if " ".join(op.split()) in ("in", "not in") and not re.fullmatch(r"[^ ,|]+([ ,|]+[^ ,|]+)*", lit[1:-1]):
             return False    # a list literal is a list of tokens: no leading/trailing/doubled separators producing empty tokens
+    known = set(G.STR_VARS) | set(G.ALIASES.values()) | {"python_version", "python_full_version", "platform_release",
+                                                          "implementation_version", "extra", "python_implementation"}
+    if any(n not in known for n, _, _ in items) or any(n not in known for _, _, n in rev):
+        return False        # e.g. `not\t in`: the name the pattern picked is not a marker variable
     for name, op, lit in items:
         lit = lit[1:-1]
         op = " ".join(op.split())
